@@ -84,7 +84,7 @@ Definition ex_hier : hier := [(0, [0]); (1, [0; 1]); (49, [49]); (50, [49; 50]);
 Definition ex_comps : comps :=
   [(0, Build_cinst 50 true); (1, Build_cinst 0 false); (2, Build_cinst 1 false)].
 Definition sn (ents : list Z) (row1 : list Z) (ex1 : bool) (ps : list Z) (k0 : option Z) : snap :=
-  Build_snap ents [row1] [ex1] ps [(0, k0)] true.
+  Build_snap ents [row1] [ex1] ps (map (fun _ => 0) ps) [(0, k0)] true.
 Definition both (r : res) (l : list ev) (s : snap) (pick : option Z) : cobs :=
   Build_cobs r l s r l s pick.
 Definition ex_ctrl (tr : ctrace) : C19_case :=
